@@ -298,7 +298,7 @@ func main() {
 	}
 	n := 0
 	mine := func() bool { n++; return n%nshards == shard }
-	subVals := []int{0x00, 0x0a, 0x20, '0', '/', ':', 0xff, -1} // -1 = original byte ^ 0x01
+	subVals := []int{0x00, 0x0a, 0x20, '0', '9', '-', '/', ':', 0xff, -1} // -1 = original byte ^ 0x01
 	if tier == "thorough" {
 		subVals = nil
 		for v := 0; v < 256; v++ {
@@ -452,6 +452,24 @@ func main() {
 			h, _ := hex.DecodeString(o.id)
 			blobRaw = string(h)
 		}
+	}
+	// object headers: token strings deflated and stored under the name of an existing blob
+	var blobPath string
+	for _, o := range objs {
+		if o.kind == "blob" {
+			blobPath = filepath.Join(root, o.path)
+		}
+	}
+	if blobPath != "" {
+		nHdr := 4
+		if tier == "thorough" {
+			nHdr = 5
+		}
+		tokens("object-header", "(object header)", []string{"blob", "tree", " ", "-", "0", "7", "99999999999", "\x00", "abcdefg"}, nHdr, func(text string) func() {
+			orig, _ := os.ReadFile(blobPath)
+			os.WriteFile(blobPath, deflate([]byte(text)), 0o644)
+			return func() { os.WriteFile(blobPath, orig, 0o644) }
+		})
 	}
 	tokens("tree-body", "(tree object)", []string{"100644", "040000", " ", "\x00", "a", blobRaw}, nTree, objApply(object.TreeObject))
 	sign := "A <a@b.co> 1700000000 +0000"
